@@ -300,6 +300,19 @@ def run(ctx: Ctx):
     temperature_rules_for(ctx, "C05", "ID-label")
     r_literal(ctx, rt)
     r_eq(ctx, rt)
+    # "... or a parse of an export - have the same identifier": the document round trips of C06 / C07 (JSON, CSV, Excel) and the database
+    # encoding of metadata values (C08) decide that the content handed back to the constructor is the content exported
+    ctx.rule("ID-route: symbolic export->import for JSON, CSV and Excel: constructor input == exported content (shared with C06 / C07; the AIF "
+             "route is decided under C07); isotherm_to_db stores numbers and text as themselves, booleans under two spellings (shared with C08)")
+    nrt = rc.run_format(ctx, rt, "C05", "json", ())
+    nrt += rc.run_format(ctx, rt, "C05", "csv", (("round", "8"),))
+    nrt += rc.run_format(ctx, rt, "C05", "excel", None)
+    ctx.floor("symbolic JSON / CSV / Excel round trips (identity by route)", nrt, 30)
+    from . import C08 as _C08
+    _m8, _mach8 = _C08.setup(ctx.root)
+    _mach8.cell_values[("isotherm_properties", "type")] = "iso_type"
+    _mach8.cell_values[("isotherm_properties", "value")] = "USERVALUE"
+    _C08.r_bool(ctx, _m8, _mach8, prop="C05", rule="ID-route")
 
 
 META = {
